@@ -12,7 +12,7 @@ func drawWithinLimits(r *core.Rng, slotty, boundary bool) (*exifCase, bool) {
 	for try := 0; try < 8; try++ {
 		ec := drawExifCase(r, slotty, boundary && try < 4)
 		b := ec.build(false, true)
-		if withinLimits(b) && b.MaxPending+ec.rec.NoteTags <= 84 {
+		if withinLimits(b) {
 			return ec, true
 		}
 	}
